@@ -95,6 +95,18 @@ pub enum Upd { Fetch { #[arg(long)] depth: u32, #[arg(long)] remote: String, #[a
 #[derive(Args, Clone, Debug, PartialEq)]
 pub struct PushArgs { #[arg(long)] to: String, #[arg(long)] force: bool }
 
+// a plain field whose only default is CONDITIONAL stays required: a conditional default guarantees no value
+#[derive(Parser, Clone, Debug, PartialEq)]
+#[command(name = "cd")]
+pub struct CondDef { #[arg(long)] mode: Option<String>, #[arg(long, default_value_if("mode", "fast", "9"))] level: u32 }
+// `Option<subcommand>` whose variants have only optional leaves (no defaults): an update naming the CURRENT variant
+// and some of its args merges in place
+#[derive(Subcommand, Clone, Debug, PartialEq)]
+pub enum OptSub { Add { #[arg(long)] a: Option<u32>, #[arg(long)] b: Option<u32> }, Sync { #[arg(long)] jobs: Option<u32>, #[arg(long)] name: Option<String> } }
+#[derive(Parser, Clone, Debug, PartialEq)]
+#[command(name = "os")]
+pub struct OptSubHolder { #[arg(long)] tag: Option<String>, #[command(subcommand)] cmd: Option<OptSub> }
+
 // ---------------------------------------------------------------- canonical field values
 fn h(s: &str) -> String { if s.is_empty() { "-".into() } else { hex(s.as_bytes()) } }
 fn c_one(v: &str) -> String { format!("one:{}", h(v)) }
@@ -449,6 +461,67 @@ pub fn run(o: &Opts) -> Report {
             Err(_) => rep.oracle_fail("derive-panics", &keyu, "try_update_from panicked"),
             Ok((_, Err(kind))) => rep.oracle_fail("update-rejected-by-a-requirement", &keyu, &format!("{kind:?}")),
             Ok((after, Ok(()))) => { if after != start { rep.oracle_fail("update-changes-unnamed-field", &keyu, &format!("{start:?} -> {after:?}")); } }
+        }
+    }
+    // conditional default only: the derived parser and its command agree on every line, and the default fires
+    for a in [vec!["cd"], vec!["cd", "--mode", "fast"], vec!["cd", "--mode", "slow"], vec!["cd", "--level", "3"], vec!["cd", "--mode", "slow", "--level", "4"], vec!["cd", "--mode", "fast", "--level", "4"]] {
+        let key = format!("CondDef argv={a:?}");
+        rep.count("conditional_default_only"); rep.case(&key, a.len() >= 4);
+        let a2: Vec<String> = a.iter().map(|x| x.to_string()).collect();
+        match std::panic::catch_unwind(move || (CondDef::try_parse_from(a2.clone()).map_err(|e| e.kind()), CondDef::command().try_get_matches_from(a2).map(|_| ()).map_err(|e| e.kind()))) {
+            Err(_) => rep.oracle_fail("derive-panics", &key, "conditional default"),
+            Ok((p, m)) => {
+                if p.is_ok() != m.is_ok() { rep.oracle_fail("parse-differs-from-command", &key, &format!("parse={p:?} command={m:?}")); }
+                if let Ok(v) = p {
+                    let want = if a.contains(&"--level") { a[a.iter().position(|x| *x == "--level").unwrap() + 1].parse::<u32>().unwrap() } else { 9 };
+                    if v.level != want { rep.oracle_fail("field-differs-from-matches", &key, &format!("level = {} expected {want}", v.level)); }
+                }
+            }
+        }
+    }
+    // Option<subcommand>: update histories naming the current variant with a subset of its args, or the other variant
+    for round in 0..(if o.thorough() { 400 } else { 60 }) {
+        let mut cur = OptSubHolder { tag: if rng.chance(1, 2) { Some(word(&mut rng)) } else { None },
+            cmd: match rng.below(3) { 0 => None, 1 => Some(OptSub::Add { a: Some(1 + rng.below(9) as u32), b: Some(1 + rng.below(9) as u32) }), _ => Some(OptSub::Sync { jobs: Some(1 + rng.below(9) as u32), name: Some(word(&mut rng)) }) } };
+        for step in 0..(1 + rng.below(3)) {
+            let mut argv = vec!["os".to_string()];
+            let mut want = cur.clone();
+            if rng.chance(1, 4) { let t = word(&mut rng); argv.extend(["--tag".to_string(), t.clone()]); want.tag = Some(t); }
+            match rng.below(3) {
+                0 => {}
+                1 => {
+                    argv.push("add".into());
+                    let (mut a0, mut b0) = match &cur.cmd { Some(OptSub::Add { a, b }) => (*a, *b), _ => (None, None) };
+                    if rng.chance(1, 2) { let v = 10 + rng.below(9) as u32; argv.extend(["--a".to_string(), v.to_string()]); a0 = Some(v); }
+                    if rng.chance(1, 2) { let v = 20 + rng.below(9) as u32; argv.extend(["--b".to_string(), v.to_string()]); b0 = Some(v); }
+                    want.cmd = Some(OptSub::Add { a: a0, b: b0 });
+                }
+                _ => {
+                    argv.push("sync".into());
+                    let (mut j0, mut n0) = match &cur.cmd { Some(OptSub::Sync { jobs, name }) => (*jobs, name.clone()), _ => (None, None) };
+                    if rng.chance(1, 2) { let v = 30 + rng.below(9) as u32; argv.extend(["--jobs".to_string(), v.to_string()]); j0 = Some(v); }
+                    if rng.chance(1, 2) { let v = word(&mut rng); argv.extend(["--name".to_string(), v.clone()]); n0 = Some(v); }
+                    want.cmd = Some(OptSub::Sync { jobs: j0, name: n0 });
+                }
+            }
+            let key = format!("OptSubHolder update#{round}.{step} start={cur:?} argv={argv:?}");
+            // the same step for the model (`Derive.updateOptSub`): the field and the subcommand part of the line
+            let enc_val = |v: &Option<OptSub>| match v { None => "~".to_string(),
+                Some(OptSub::Add { a, b }) => format!("{} 2 {} {} {} {}", h("add"), h("a"), a.map(|x| h(&x.to_string())).unwrap_or("~".into()), h("b"), b.map(|x| h(&x.to_string())).unwrap_or("~".into())),
+                Some(OptSub::Sync { jobs, name }) => format!("{} 2 {} {} {} {}", h("sync"), h("jobs"), jobs.map(|x| h(&x.to_string())).unwrap_or("~".into()), h("name"), name.as_ref().map(|x| h(x)).unwrap_or("~".into())) };
+            let enc_line = match argv.iter().position(|w| w == "add" || w == "sync") { None => "~".to_string(), Some(k) => {
+                let rest = &argv[k + 1..]; let mut t = format!("{} {}", h(&argv[k]), rest.len() / 2);
+                for pair in rest.chunks(2) { t.push_str(&format!(" {} {}", h(&pair[0][2..]), h(&pair[1]))); } t } };
+            let req_m = format!("optsub {} {}", enc_val(&cur.cmd), enc_line);
+            rep.count("updates_optional_subcommand"); rep.case(&key, argv.len() >= 3);
+            let (st, av) = (cur.clone(), argv.clone());
+            match std::panic::catch_unwind(move || { let mut c = st; let r = c.try_update_from(av).map_err(|e| e.kind()); (c, r) }) {
+                Err(_) => { rep.oracle_fail("derive-panics", &key, "try_update_from panicked"); break; }
+                Ok((_, Err(kind))) => { rep.oracle_fail("update-rejected-by-a-requirement", &key, &format!("{kind:?}")); break; }
+                Ok((after, Ok(()))) => { if after != want { rep.oracle_fail("update-changes-unnamed-field", &key, &format!("{cur:?} -> {after:?}, expected {want:?}")); }
+                    reqs.push(req_m); impls.push(format!("OK {}", enc_val(&after.cmd))); keys.push(key.clone());
+                    cur = after; }
+            }
         }
     }
     if o.driver != "none" {
